@@ -1379,6 +1379,16 @@ func (c *Ctx) optVarLoop(rule string, clause string) (nLoops, nviol int) {
 }
 
 // ---------------------------------------------------------------------------------------------
+// optOwnConfirmed: the reads of another command's option storage present in the reference tree, each
+// confirmed by reading (the reader wants exactly the other command's registered default).
+var optOwnConfirmed = map[string]bool{
+	"computesupportCmd:rawSupportOutputFile": true, // opens the raw-support file the tbe/booster sub-commands register (-r)
+	"dlpantherCmd:ncbioutput":                true, // download panther writes where download ncbitax's -o points (shared default "stdout")
+	"labelsCmd:outtreefile":                  true, // labels writes to the shared output variable, default stdout
+	"transferCommentsCmd:edgecomments":       true, // comment transfer reuses comment clear's two switches as its own defaults (false)
+	"transferCommentsCmd:nodecomments":       true,
+}
+
 // OPT-OWN: a command reads the storage of its own options. The contradiction looked for: the run
 // function of command X reads the storage of an option registered by other commands only (not X,
 // not an ancestor of X), while X registers an option of the same type whose storage nothing in the
@@ -1520,6 +1530,19 @@ func (c *Ctx) optOwn(rule string, clause string) (nCmds, nviol int) {
 							reported = true
 							other := anyReg[fo][0]
 							c.Violation(rule, cmdVar+"/--"+r.flag, pos, fmt.Sprintf("%s reads `%s`, the storage of --%s of %s, which %s does not register, while the storage `%s` of its own option --%s is never read: the option given to this command is ignored and another command's default decides", cmdVar, fo.Name(), other.flag, other.cmdVar, cmdVar, o.Name(), r.flag)).Clause = clause
+						}
+					}
+				}
+				// reads of another command's option storage confirmed by hand on the reference tree
+				// (each sees the other command's registered default; recorded as notes). Any other such
+				// read is new: the value is not one the user of this command can set.
+				if !reported {
+					for fo, pos := range foreign {
+						if !optOwnConfirmed[cmdVar+":"+fo.Name()] {
+							nviol++
+							reported = true
+							other := anyReg[fo][0]
+							c.Violation(rule, cmdVar+"/reads "+fo.Name(), pos, fmt.Sprintf("%s reads `%s`, the storage of --%s of %s, which %s does not register: what it sees is that command's default (or the value the last registration left there), never something the user of %s can set", cmdVar, fo.Name(), other.flag, other.cmdVar, cmdVar, cmdVar)).Clause = clause
 						}
 					}
 				}
@@ -2520,6 +2543,32 @@ func (c *Ctx) shadowResult(rule string, pkgs []*packages.Package, clause string)
 						}
 					}
 				}
+				localRes := false
+				if res == nil {
+					// or a local error variable, declared at the top of the body, that the function's
+					// last statement returns (`var err error ... return err`)
+					if len(body.List) > 0 {
+						if rt, ok := body.List[len(body.List)-1].(*ast.ReturnStmt); ok && len(rt.Results) > 0 {
+							if o := identObj(info, rt.Results[len(rt.Results)-1]); o != nil && isErrorType(o.Type()) {
+								for _, st := range body.List {
+									if ds, ok := st.(*ast.DeclStmt); ok {
+										if gd, ok := ds.Decl.(*ast.GenDecl); ok {
+											for _, sp := range gd.Specs {
+												if vs, ok := sp.(*ast.ValueSpec); ok {
+													for _, nm := range vs.Names {
+														if info.Defs[nm] == o {
+															res, localRes = o, true
+														}
+													}
+												}
+											}
+										}
+									}
+								}
+							}
+						}
+					}
+				}
 				if res == nil {
 					return true
 				}
@@ -2570,7 +2619,18 @@ func (c *Ctx) shadowResult(rule string, pkgs []*packages.Package, clause string)
 								handled = true
 							}
 						case *ast.BranchStmt:
-							handled = true // break/continue: a loop deals with it
+							// break/continue: a loop deals with it - unless the outer variable is a
+							// local that the function returns at its end and the branch leaves the loop
+							// without having stored the error there (the caller is told nil)
+							if !(localRes && y.Tok == token.BREAK) {
+								handled = true
+							}
+						case *ast.AssignStmt:
+							for _, l := range y.Lhs {
+								if identObj(info, l) == res {
+									handled = true
+								}
+							}
 						}
 						return true
 					})
@@ -2579,7 +2639,7 @@ func (c *Ctx) shadowResult(rule string, pkgs []*packages.Package, clause string)
 						return true
 					}
 					nviol++
-					c.Violation(rule, key, as.Pos(), fmt.Sprintf("`%s := ...` declares a new variable that hides the function's named result %s; when it is non-nil the branch neither returns it nor stops, so the function reaches its bare return with the outer %s still nil: the failure is not reported to the caller", res.Name(), res.Name(), res.Name())).Clause = clause
+					c.Violation(rule, key, as.Pos(), fmt.Sprintf("`%s := ...` declares a new variable that hides the error variable %s the function returns at its end; when it is non-nil the branch neither returns it, stores it in the outer variable nor stops, so the function reaches its final return with the outer %s still nil: the failure is not reported to the caller", res.Name(), res.Name(), res.Name())).Clause = clause
 					return true
 				})
 				return true
